@@ -136,7 +136,7 @@ def hooks(shape, h0, h1, n, k0, k1, k2, rep2, instance):
     repeat = 2 if rep2 else 1
     h0, h1 = ci(h0, 0, 3), ci(h1, 0, 3)
     kinds = [ci(k, 0, 14) for k in (k0, k1, k2)[:n]]
-    names = ['t%d' % i for i in range(n)]
+    names = ['t0', 't1', 't2'][:n]      # literal names: '%'-formatting under CrossHair yields lazily symbolic strings
     with untraced():          # world construction from already-decided values
         layer, info = build_layers(shape, h0, h1, instance)
         tests = [W.mk_test(nm, k) for nm, k in zip(names, kinds)]
